@@ -295,6 +295,17 @@ func (s Sel) buildOn(nestHandle *sif.FileImage) sif.DescriptorSelectorFunc {
 		}
 		return sif.WithOCIBlobDigest(h)
 	case "P":
+		var streams map[string]bool
+		if s.ByStream && nestHandle != nil {
+			streams = map[string]bool{}
+			for _, id := range s.M {
+				if d, err := nestHandle.GetDescriptor(sif.WithID(id)); err == nil {
+					if b, err := io.ReadAll(d.GetIntegrityReader()); err == nil {
+						streams[string(b)] = true
+					}
+				}
+			}
+		}
 		return func(d sif.Descriptor) (bool, error) {
 			in := func(ids []uint32, id uint32) bool {
 				for _, x := range ids {
@@ -313,7 +324,13 @@ func (s Sel) buildOn(nestHandle *sif.FileImage) sif.DescriptorSelectorFunc {
 			if in(s.E, d.ID()) || (s.ET != 0 && int64(d.DataType()) == s.ET) {
 				return false, errCallerPred
 			}
-			return in(s.M, d.ID()) || (s.MT != 0 && int64(d.DataType()) == s.MT) || (s.MG != 0 && d.GroupID() == s.MG), nil
+			byID := in(s.M, d.ID())
+			if streams != nil && byID {
+				// the descriptor handed to the function says what the object's own descriptor says
+				b, err := io.ReadAll(d.GetIntegrityReader())
+				byID = err == nil && streams[string(b)]
+			}
+			return byID || (s.MT != 0 && int64(d.DataType()) == s.MT) || (s.MG != 0 && d.GroupID() == s.MG), nil
 		}
 	}
 	panic("bad sel " + s.Kind)
